@@ -1,0 +1,9 @@
+//go:build !verif
+
+package server
+
+// verifTrace and verifGate are no-ops unless the package is built with the
+// "verif" build tag (see verif_on.go).
+func verifTrace(string, ...any) {}
+
+func verifGate(string, string) {}
